@@ -697,7 +697,7 @@ def build_world(cfg):  # noqa: PLR0915, C901
             clc = [0, 0] if not cl else [1, int(cl)] if cl.isdigit() else [2, 0] if re.fullmatch(r'-\d+', cl) else [3, 0]
             els = urlparse(path).path.split('/')
             first = els[0] if els[0] else (els[1] if len(els) > 1 else '')
-            comp = [1, 500, 1] if it['kind'] == 'bad_xml' else [1, 200, 0]
+            comp = [1, 500, 1] if it['kind'] == 'bad_xml' else [1, 400, 1] if it['kind'].startswith('mismatch') else [1, 200, 0]
             model_items.append([method == 'POST', [hd.get('transfer-encoding', '').lower() == 'chunked'] + clc, hd.get('content-encoding'),
                                 [True, 0 if first in srv.dispatcher._instances else 1], comp, True])
             wires += wire
@@ -1231,6 +1231,26 @@ def header_fuzz(rng, headers, field=None):
     return hs, field, value
 
 
+def mismatch_message(x_data, y_data):
+    """SOAP header (action, addressing, identifiers) of request X with the body element of request Y; None if not applicable"""
+    import copy
+    try:
+        px = etree.XMLParser(resolve_entities=False)
+        x, y = etree.fromstring(x_data, parser=px), etree.fromstring(y_data, parser=etree.XMLParser(resolve_entities=False))
+    except Exception:  # noqa: BLE001
+        return None
+    bx, by = x.find(f'{{{S12}}}Body'), y.find(f'{{{S12}}}Body')
+    if bx is None or by is None or len(by) == 0:
+        return None
+    if len(bx) and bx[0].tag == by[0].tag:
+        return None
+    for ch in list(bx):
+        bx.remove(ch)
+    for ch in by:
+        bx.append(copy.deepcopy(ch))
+    return etree.tostring(x, xml_declaration=True, encoding='UTF-8')
+
+
 def direct_reads(W, body, marker):
     """the same bytes handed to MessageReader.read_received_message of the provider and of the consumer (the reader of
     requests, notifications, responses and WS-Discovery datagrams), with and without schema validation"""
@@ -1372,7 +1392,42 @@ def run_world(cfg):  # noqa: PLR0915, C901, PLR0912
         m = re.search(rb'Action[^>]*>([^<]+)<', data)
         if m and m.group(1).decode() not in known_actions:
             known_actions.append(m.group(1).decode())
-        family = rng.choices(['xml', 'bytes', 'path', 'frame', 'entity', 'header'], [0.36, 0.2, 0.09, 0.15, 0.08, 0.12])[0]
+        family = rng.choices(['xml', 'bytes', 'path', 'frame', 'entity', 'header', 'mismatch'], [0.33, 0.18, 0.08, 0.14, 0.07, 0.1, 0.1])[0]
+        if family == 'mismatch':
+            # ORDER: a valid request with action A first (same dispatcher, another connection), then action A with the body element
+            # of another operation: there is no handler for (A, foreign body) - must be a fault, nothing may run
+            other = rng.choice([n for n in names if n != name])
+            W.capture, W.label, W.mutation = False, name, 'none'
+            try:
+                makers[name]()
+            except BaseException:  # noqa: BLE001
+                pass
+            W.capture = True
+            try:
+                makers[name]()
+                x = None
+            except Captured as cap:
+                x = cap
+            except Exception:  # noqa: BLE001
+                x = None
+            try:
+                makers[other]()
+                y = None
+            except Captured as cap:
+                y = cap
+            except Exception:  # noqa: BLE001
+                y = None
+            finally:
+                W.capture = False
+            body = mismatch_message(x.data, y.data) if x is not None and y is not None else None
+            if body is None:
+                continue
+            W.label, W.mutation = name, f'mismatch:{name}+{other}'
+            try:
+                W.deliver(x.netloc, 'POST', x.path, list(default_headers), body, {}, label=name, mutation=f'mismatch:{name}+{other}')
+            except Exception as exc:  # noqa: BLE001
+                errors.append(f'deliver mismatch {name}+{other}: {type(exc).__name__}: {exc}'[:160])
+            continue
         method, headers, framing, body = 'POST', list(default_headers), {}, data
         marker = None
         if family == 'header':
@@ -1526,11 +1581,25 @@ def run_world(cfg):  # noqa: PLR0915, C901, PLR0912
     seq_valid_types = ['GetMdib', 'GetMdState', 'GetContextStates', 'Probe', 'TransferGet', 'GetMetadata', 'SetString', 'SetValue',
                        'Subscribe', 'GetMdDescription']
     seq_kinds = ['valid', 'valid', 'valid', 'unknown_path', 'unknown_path', 'smuggle_post', 'smuggle_post', 'smuggle_get', 'bad_method',
-                 'bad_header', 'bad_xml', 'framing_error', 'unsupported_ce', 'oversized_unknown', 'get', 'get_unknown', 'hdr_fuzz', 'hdr_fuzz']
+                 'bad_header', 'bad_xml', 'framing_error', 'unsupported_ce', 'oversized_unknown', 'get', 'get_unknown', 'hdr_fuzz', 'hdr_fuzz', 'mismatch', 'mismatch', 'mismatch']
 
     def mid(data):
         m = re.search(rb'MessageID[^>]*>([^<]+)<', data)
         return m.group(1).decode('latin-1') if m else None
+
+    def seq_mismatch():
+        name = rng.choice(seq_valid_types + ['Renew', 'GetStatus'])
+        other = rng.choice([n for n in names if n != name])
+        x1, x2, y = capture(name), capture(name), capture(other)
+        if x1 is None or x2 is None or y is None:
+            return []
+        body = mismatch_message(x2[2], y[2])
+        if body is None:
+            return []
+        H = list(default_headers)
+        return [{'kind': 'valid', 'raw': W.build_raw('POST', x1[1], H, x1[2], W.framing_for_valid()), 'message_id': mid(x1[2]), 'valid': True,
+                 'expect': 200 if name in seq_valid_types else None},
+                {'kind': f'mismatch:{name}+{other}', 'raw': W.build_raw('POST', x2[1], H, body, W.framing_for_valid()), 'expect': 400}]
 
     def seq_item(kind):
         cap = capture(rng.choice(seq_valid_types if kind != 'smuggle_post' and kind != 'smuggle_get' else ['Subscribe', 'SetString', 'Subscribe']))
@@ -1599,6 +1668,9 @@ def run_world(cfg):  # noqa: PLR0915, C901, PLR0912
             kind = rng.choice(seq_kinds)
             if kind in closing and (not items or rng.random() < 0.6 or any(i['kind'] in closing for i in items)):
                 kind = rng.choice(['unknown_path', 'smuggle_post', 'valid', 'bad_xml'])   # the connection ends behind a closing kind
+            if kind == 'mismatch':
+                items.extend(seq_mismatch())
+                continue
             it = seq_item(kind)
             if it is not None:
                 items.append(it)
